@@ -26,7 +26,7 @@ def merge(a, b):
 
 
 STREAM_CLAUSES = {
-    "C01": ["forward_starts_at_forward_state", "checkpoint_present",
+    "C01": ["stream_raises_mid_way", "forward_starts_at_forward_state", "checkpoint_present",
             "restart_checkpoint_covers_steps_to_recompute", "checkpoint_before_adjoint_position",
             "reverse_deps_in_work", "no_overwrite"],
     "C02": ["EndForward_exactly_once", "EndForward_when_forward_complete",
@@ -40,7 +40,8 @@ STREAM_CLAUSES = {
             "max_n_is_true_step_count", "max_n_unknown_before_finalize"],
     "C09": ["is_running_false_before_first_action", "is_running_true_after_first_action",
             "is_exhausted_iff_final_action_emitted", "StopIteration_after_final_action",
-            "further_pass_is_exact_repeat", "nothing_after_last_EndReverse"],
+            "further_pass_is_exact_repeat", "further_pass_is_executable_repeat",
+            "nothing_after_last_EndReverse", "stream_ended_early"],
     "C12": ["work_deps_at_most_one_step", "load_while_unused_restart_data_in_work",
             "load_while_adj_deps_in_work", "work_adj_deps_only_for_step_before_adjoint",
             "forward_beyond_adjoint_position", "forward_beyond_last_step"],
@@ -81,6 +82,29 @@ def replay(spec, passes=3):
             "stream_head": r["stream"][:40]}
 
 
+def fields(specs, passes=2):
+    """Initial object fields + CPython stream for the engine cross-check."""
+    from .driver import build, drive
+    from checkpoint_schedules.schedule import StorageType
+    out = []
+    for spec in specs:
+        spec = (spec[0], tuple(spec[1]), tuple(tuple(x) for x in spec[2]), spec[3])
+        obj = build(spec)
+        flds = {}
+        for k, v in obj.__dict__.items():
+            if isinstance(v, StorageType):
+                flds[k] = {"storage": v.name}
+            elif isinstance(v, tuple) and all(isinstance(x, StorageType) for x in v):
+                flds[k] = {"storage_tuple": [x.name for x in v]}
+            elif isinstance(v, str):
+                flds[k] = {"str": v}
+            elif v is None or isinstance(v, (bool, int)):
+                flds[k] = v
+        r = drive(spec, passes=passes, keep_stream=True, observe=False)
+        out.append({"fields": flds, "stream": r["stream"], "error": r["error"]})
+    return out
+
+
 def main(argv=None):
     ap = argparse.ArgumentParser()
     ap.add_argument("prop")
@@ -90,7 +114,9 @@ def main(argv=None):
     ap.add_argument("--spec", default=None)
     a = ap.parse_args(argv)
     t0 = time.time()
-    if a.prop == "replay":
+    if a.prop == "fields":
+        out = fields(json.loads(a.spec), passes=max(1, a.seed))
+    elif a.prop == "replay":
         out = replay(json.loads(a.spec))
     else:
         out = run(a.prop, a.tier, a.seed)
